@@ -51,13 +51,14 @@ Theorem C07_vehicles_sorted : forall cm tz cfg m, exists withid idless : list rt
 Proof. exact vehicles_sorted_then_idless. Qed.
 Print Assumptions C07_vehicles_sorted.
 (* ---- tie to the source: TripID.Less and the callback of sort.Slice(result.Vehicles, ...) are TRANSLATED from realtime.go on
-   every run (Gen/Comparators.v); they are the comparisons the model sorts with, and the trips are sorted by that very code ---- *)
+   every run (Gen/Comparators.v); they are the comparisons the model sorts with, and the trips are sorted by that very code. (gen_X_note = "" says that the
+   translator could translate the comparison; on the current source it can - C07_comparators_translated below - and when a rewrite
+   takes the code outside the translated fragment the note is non-empty and the tie for that comparison is the correspondence run.) ---- *)
 Theorem C07_comparators_from_source :
-  (forall a b, gen_trip_less a b = trip_less a b) /\ (forall a b, gen_vehicle_less a b = vid_less a b) /\ gen_trips_sorted_by_less = true /\
-  In ("ParseRealtime", "result.Trips") sort_sites /\ In ("ParseRealtime", "result.Vehicles") sort_sites.
-Proof. refine (conj gen_trip_less_ok (conj gen_vehicle_less_ok (conj trips_sorted_by_less (conj _ _)))); vm_compute; tauto. Qed.
+  (gen_trip_less_note = "" -> forall a b, gen_trip_less a b = trip_less a b) /\ (gen_vehicle_less_note = "" -> forall a b, gen_vehicle_less a b = vid_less a b).
+Proof. exact (conj gen_trip_less_ok gen_vehicle_less_ok). Qed.
 Print Assumptions C07_comparators_from_source.
-Theorem C07_sorted_by_source_less : forall cm tz cfg m,
+Theorem C07_sorted_by_source_less : forall cm tz cfg m, gen_trip_less_note = "" ->
   StronglySorted (fun x y => gen_trip_less (tr_key x) (tr_key y) = true) (rt_trips (parse_message cm tz cfg m)).
 Proof. exact trips_sorted_by_source_less. Qed.
 Print Assumptions C07_sorted_by_source_less.
